@@ -133,6 +133,9 @@ type Prop struct {
 	// Exec runs on the bubble's root goroutine. It starts client tasks with
 	// c.S.GoClient and drives them with c.RunTasks.
 	Exec func(c *Ctx)
+	// Post, if set, runs after the bubble has ended (outside simulated time):
+	// history checks such as linearizability.
+	Post func(c *Ctx)
 }
 
 var registry = map[string]*Prop{}
@@ -243,6 +246,9 @@ func RunPlan(t *testing.T, p *Plan, keepLog bool) (res *Result) {
 		})
 	}()
 	Install(nil)
+	if c != nil && prop.Post != nil && c.viol == nil && c.incon == "" {
+		prop.Post(c)
+	}
 	if c != nil {
 		res.Violation = c.viol
 		res.Inconcl = c.incon
